@@ -49,6 +49,7 @@ struct OutMsg {                             // a message the broker sends to the
     uint64_t seq_enqueued = 0; vt t_enqueued = 0;
     int first_conn = -1;
     bool retransmit_rel_without_state = false;
+    int fit_delta = -1;                     // >= 0: the payload is sized at first transmission so that the PUBLISH is (client's Maximum Packet Size - fit_delta) bytes
 };
 
 struct Session {
@@ -66,6 +67,7 @@ struct BConn {                              // per-connection broker state
     size_t rx_offset = 0;                   // c2b bytes parsed so far
     int connect_cpkt = -1;
     uint16_t client_receive_max = 65535;
+    uint32_t client_max_packet = 0;         // Maximum Packet Size announced in CONNECT (0: none)
     int inflight_to_client = 0;
     bool auth_in_progress = false;
 };
@@ -87,7 +89,7 @@ public:
     void on_conn_lost(const ConnPtr& c, bool by_client);
 
     // scenario actions
-    int publish_to_client(const std::string& tag, std::string topic, std::string payload, uint8_t qos, bool retain, ref::Props props);
+    int publish_to_client(const std::string& tag, std::string topic, std::string payload, uint8_t qos, bool retain, ref::Props props, int fit_delta = -1);
     void send_raw(const ConnPtr& c, const std::string& bytes, BKind kind, const char* note);   // hostile / spurious bytes
     int send_packet(const ConnPtr& c, const ref::Packet& p, BKind kind, int for_cpkt = -1, int out_msg = -1);
     ConnPtr current() const { return current_; }      // connection with an accepted CONNECT, if any
